@@ -13,6 +13,32 @@ F9 = [("f9_pump_holds", "shutdown-while-pump-holds-message"),
       ("f9_put_after_exit_check", "shutdown-while-publish-past-exit-check")]
 
 
+# crash-point schedules that must NOT lose anything on a correct tree
+SAFE = [("exit_races_timeout_scan", "shutdown-races-timeout-scan"),
+        ("exit_races_pending_notify", "pending-notify-persists-after-close")]
+
+
+def replay_safe(ctx, binp):
+    res = ctx.corr.setdefault("crash_point_replays", {})
+    for name, key in SAFE:
+        rc, kv, out = base.run_sched(ctx, binp, name, timeout=90)
+        res[name] = kv or {"error": out[-300:]}
+        sched = open(os.path.join(ROOT, "corpus", "C05", name + ".sched")).read()
+        if not kv:
+            if rc == -9 or "test timed out" in out:
+                ctx.violation("shutdown-blocked:" + name, "the %s schedule did not finish (Exit or the scan never returned)" % name, sched)
+            else:
+                ctx.broken_ties.append("crash-point replay %s did not run (rc=%s): %s" % (name, rc, out[-200:].replace("\n", " | ")))
+            continue
+        ctx.evaluations += 1
+        ctx.count_case("sched:" + name, nontrivial=True)
+        if kv.get("lost") == "true":
+            ctx.violation(key, "%s: %s" % (name, " ".join("%s=%s" % x for x in sorted(kv.items()))),
+                          sched + "# observed: " + " ".join("%s=%s" % x for x in sorted(kv.items())) + "\n")
+        elif kv.get("exit") != "ok":
+            ctx.violation("shutdown-blocked:" + name, "NSQD.Exit did not return in the %s schedule: %s" % (name, kv), sched)
+
+
 def replay_known(ctx, binp):
     res = {}
     for name, key in F9:
@@ -159,6 +185,9 @@ def run(ctx):
     ctx.assumptions += [
         "restart_preserves / restart_cycles: the shutdown is requested in a state with no pending continuation (atomic "
         "model); names are unique (WF, proved for every reachable state: wf_reachable)",
+        "scan_race_safe: the timeout scans hold exitMutex.RLock across 'out of the in-flight/deferred map … back on the "
+        "queue' (tie scan_holds_exit_lock; replayed: exit_races_timeout_scan); persisted_ignores_exiting: GetMetadata does "
+        "not consult exit flags (tie metadata_ignores_exit_flag; replayed: exit_races_pending_notify)",
         "C05_partial: no publisher is between Topic.PutMessage's exitFlag test and its queue write and no consumer pump "
         "holds a received, unregistered message while the three exit stages run; C05_full is false (C05_full_false), "
         "both witnesses are replayed on the real code as known findings",
@@ -190,6 +219,7 @@ def run(ctx):
             replay_file(ctx, binp)
             return
         replay_known(ctx, binp)
+        replay_safe(ctx, binp)
         restart_corr(ctx, binp, corr_broken, ctx.seed, ctx.budget(24, 240), ctx.budget(30, 50), 200)
         restart_corr(ctx, binp, corr_broken, ctx.seed + 1000, ctx.budget(8, 80), ctx.budget(30, 50), 1 << 20)
     if (ctx.broken_ties or corr_broken) and not ctx.violations:
